@@ -8,10 +8,14 @@ execute concurrently, (b) is not on an object confined to one goroutine (fresh p
 per command), and (c) touches a field that has such a write at all.  The discipline: any
 two accesses to one field of which one is a write hold a common mutex, unless the field
 is synchronised by a channel close (the writer writes before `close(done)`, readers read
-after `<-done`).  This is a proof about the extracted abstraction, not about the Go
-memory model; phase and confinement classification are inputs (extract2/classify.go),
-validated by race-detector runs of the harness.
+after `<-done`).  What the discipline buys is `Race.Threads.no_race_state` (every
+interleaving of every program keeping it has no race state); `Race.Table` ties the rows to
+that model.  The phase classification is no longer an input: extract2 checks it against the
+static call graph (`setupReachedFromRun`), the confinement claims against a syntactic
+escape search (`confinedEscapes`), and the channel exemption is COMPUTED from the channel
+ordering facts (`chanOrdered`).
 -/
+import TaskModel.Gen.Access
 namespace TaskModel.Race
 
 structure Access where
@@ -25,10 +29,41 @@ deriving Repr, DecidableEq
 def ofTuple (t : String × String × String × Bool × List String) : Access :=
   ⟨t.1, t.2.1, t.2.2.1, t.2.2.2.1, t.2.2.2.2⟩
 
-/-- fields ordered by a channel close instead of a mutex: `execution.err` is written by the
-registered execution before `close(done)` and read by waiters after `<-done` (the ordering
-itself is `Props.C01.C01_shared`: a waiter wakes only after `execDone`) -/
-def chanSync : List String := ["task.execution.err"]
+/-- one channel-ordering fact: an access without a mutex to a field of a struct that has a closed channel field -/
+structure ChanFact where
+  loc : String
+  fn : String
+  write : Bool
+  role : String
+  chan : String
+deriving Repr, DecidableEq
+
+def chanFactOf (t : String × String × Bool × String × String) : ChanFact :=
+  ⟨t.1, t.2.1, t.2.2.1, t.2.2.2.1, t.2.2.2.2⟩
+
+/-- the role orders the access: writes only by the creating activation before it closes the
+channel, reads there or after a receive -/
+def roleOk (f : ChanFact) : Bool :=
+  f.role == "before-close" || (!f.write && f.role == "after-recv")
+
+/-- all lock-free accesses of location `l` are ordered through one channel `c`, and somebody writes it -/
+def locOrdered (facts : List ChanFact) (l c : String) : Bool :=
+  facts.all (fun f => f.loc != l || (roleOk f && f.chan == c)) &&
+  facts.any (fun f => f.loc == l && f.write)
+
+def dedup : List String → List String
+  | [] => []
+  | x :: r => if r.contains x then dedup r else x :: dedup r
+
+/-- the locations exempt from the lockset rule, COMPUTED from the facts: every access to them that
+holds no mutex, anywhere in the module, is ordered by the close of one channel -/
+def chanSyncOf (facts : List ChanFact) : List String :=
+  dedup ((facts.filter (fun f => locOrdered facts f.loc f.chan)).map (·.loc))
+
+/-- fields ordered by a channel close instead of a mutex — on the reference tree `execution.err`:
+written by the registered execution before `close(done)` and read by waiters after `<-done`.
+No longer a constant: an unordered access to the field anywhere removes the exemption. -/
+def chanSync : List String := chanSyncOf (TaskModel.Gen.Access.chanOrdered.map chanFactOf)
 
 def shareLock (a b : Access) : Bool := a.locks.any (fun l => b.locks.contains l)
 
